@@ -47,6 +47,14 @@ func seedPayloads() []*V {
 	add(sliceOf(inner(1)))
 	add(sliceOf(ptr(inner(1))))
 	add(sliceOf(imap("k1", str(1))))
+	// a nil pointer among the elements of a slice of struct pointers: payload, field, map value
+	nilIn := func() *V {
+		return &V{K: "slice", Elem: ptr(inner(1)), Elems: []*V{ptr(inner(1)), {K: "nilptr", Elem: inner(7)}, ptr(inner(4))}}
+	}
+	add(&V{K: "slice", Elem: ptr(inner(1)), Elems: []*V{{K: "nilptr", Elem: inner(1)}}})
+	add(nilIn())
+	add(ptr(st(fld("F1", nil, nilIn()))))
+	add(ptr(st(fld("F1", nil, imap("k1", nilIn())))))
 	add(&V{K: "strs", Cs: []int{1, 2}})
 	add(&V{K: "bytess", Cs: []int{1}})
 	add(ptr(str(1)))
